@@ -1,3 +1,4 @@
 import Drivers.Common
 import Drivers.OracleD
+import Drivers.GovD
 import Drivers.ChainDriver
